@@ -22,7 +22,8 @@ def ili_file(rng, pool):
     lines = ['\t'.join(header)]
     rows = []
     for i in rng.sample(pool, rng.randint(1, len(pool))):
-        vals = {'ili': i, 'status': rng.choice(['active', 'provisional', 'deprecated', 'weird']), 'definition': rng.choice(['a thing', 'another & <thing>', '', 'x y'])}
+        vals = {'ili': i, 'status': rng.choice(['active', 'active', 'provisional', 'deprecated', 'weird', 'presupposed']),
+                'definition': rng.choice(['a thing', 'another & <thing>', '', 'x y', '"hot dog": a sausage', '"unclosed quote', "it's", 'semi;colon, comma'])}
         cells = [vals.get(h.lower(), 'zzz') for h in header]
         if rng.random() < 0.2:
             cells = cells[:rng.randint(1, len(cells))]     # short row
@@ -37,10 +38,13 @@ def gen(rng):
     a = g.lexicon('a', '1', '1.1', n_syn=rng.randint(3, 5), n_ent=2, ili_pool=pool[:5])
     b = g.lexicon('b', '1', '1.1', n_syn=rng.randint(2, 4), n_ent=2, ili_pool=pool[2:6])
     lines, rows = ili_file(rng, pool)
+    lines2, rows2 = ili_file(rng, pool)
     A = {'k': 'add', 'res': docs.resource([a], '1.1')}
     B = {'k': 'add', 'res': docs.resource([b], '1.1')}
-    I = {'k': 'ili', 'lines': lines}
-    orders = [[A, B, I], [I, A, B], [A, I, B]]
+    I = {'k': 'ili', 'lines': lines, '_rows': rows}
+    I2 = {'k': 'ili', 'lines': lines2, '_rows': rows2}
+    # the second index always comes after the first (a later file overrides an earlier one)
+    orders = [[A, B, I, I2], [I, I2, A, B], [A, I, B, I2], [I, A, I2, B], [A, I, I2, B]]
     h1, h2 = rng.sample(orders, 2)
     watch = {'k': 'ilis', 'ids': pool}
     hs = []
@@ -48,9 +52,9 @@ def gen(rng):
         ops = []
         for op in h:
             ops += [op, {'k': 'obs'}, watch]
-        ops += [I, {'k': 'obs'}, watch]        # loading the same file again
+        ops += [I2, {'k': 'obs'}, watch]        # loading the same file again
         hs.append({'ops': ops})
-    return {'histories': hs, 'rows': rows}
+    return {'histories': hs, 'rows': rows + rows2}
 
 
 def expected_for(rows):
@@ -71,8 +75,6 @@ def strip_ili(obs, listed):
 
 
 def judge(ctx, sc, ims):
-    exp = expected_for(sc['rows'])
-    listed = set(exp)
     finals = []
     for h, im in zip(sc['histories'], ims):
         ops = h['ops']
@@ -81,6 +83,8 @@ def judge(ctx, sc, ims):
         prev_ilis = None
         for k, op in enumerate(ops):
             if op['k'] == 'ili':
+                exp = expected_for(op['_rows'])
+                listed = set(exp)
                 if not im[k].get('ok'):
                     ctx.fail('index-file-is-accepted', sc, {'out': im[k]})
                     return
@@ -97,7 +101,7 @@ def judge(ctx, sc, ims):
                     for i, v in prev_ilis['by_id'].items():
                         if i not in exp and ilis_after['by_id'].get(i) != v:
                             ctx.fail('unlisted-ILIs-unchanged', sc, {'ili': i, 'before': v, 'after': ilis_after['by_id'].get(i)})
-                if loaded:
+                if loaded and ops[k - 3] is op:
                     if store.canon_obs(prev_obs) != store.canon_obs(obs_after) or sorted(map(json.dumps, prev_ilis['all'])) != sorted(map(json.dumps, ilis_after['all'])):
                         ctx.fail('loading-the-same-file-again-changes-nothing', sc, {})
                 loaded = True
